@@ -160,3 +160,8 @@ Qed.
 Lemma step_tick_fails_is_translated h d answers :
   step h d OpTickFails = (d, outcome_of_gen (gen_query_and_handle h None answers)).
 Proof. reflexivity. Qed.
+
+(* eonPubKeyHandler.loop as read on this run: in the production setting (stopOnErrors = false)
+   every polling run, failed or not, is followed by another one *)
+Lemma gen_loop_keeps_polling failed : gen_loop_polls_again_after failed false = true.
+Proof. destruct failed; reflexivity. Qed.
